@@ -477,6 +477,17 @@ func init() {
 					us = append(us, unitsFor("C07", "iter", p, patterns.OptRTL, "", maxN, nil, false)...)
 				}
 			}
+			// the adapter's own iteration (compat package): its find-all methods against the FindNextMatch
+			// sequence of the wrapped Regexp, nullable patterns on subjects that mix 1- and 2-byte runes
+			for _, t := range []string{`a*`, `é*`, `(b|)`, `\b`, `a*?`, `(?:)`, `[^a]*`, `a|`, `(a)?`, `^|$`} {
+				for _, n := range []int{2, 3, 4, 5} {
+					if n == 5 && tier != "thorough" {
+						continue
+					}
+					us = append(us, Unit{ID: fmt.Sprintf("C07/adapter/%s/r%d", t, n), Pkg: "compat", Harness: "compatentry", Domain: "full",
+						Params: map[string]string{"pattern": t, "options": "0", "copts": "", "n": itoa(n), "mode": "r", "runealphabet": "aéb", "key_extra": "adapter/r"}})
+				}
+			}
 			return us
 		},
 		Rule:      "For each (pattern, direction, n): n symbolic runes; FindRunesMatch + FindNextMatch are iterated to exhaustion on every feasible path; order, disjointness, no repeated empty match, at most n+1 matches, equality of each match with an independent naive scan from the previous end (\\G origin = that end), and FindAllRunesIndex(t,k) for k in -1..3 against the filtered sequence are asserted.",
@@ -612,7 +623,12 @@ func init() {
 				ps = append(ps, patterns.FromText(string(c)+"q", 0, "shape:alphabet"), patterns.FromText("q"+string(c)+"1", 0, "shape:alphabet"))
 			}
 			for _, c := range []rune{'é', 'ÿ', 'σ', 'ω', 'ж', 'я', 'ß', 'k'} {
-				ps = append(ps, patterns.FromText(string(c)+"q", 0, "shape:alphabet"))
+				ps = append(ps, patterns.FromText(string(c)+"q", 0, "shape:alphabet"), patterns.FromText("1"+string(c), 0, "shape:alphabet"))
+			}
+			// a literal run whose only cased letter is its last / its middle character
+			for _, c := range []rune{'a', 'k', 's', 'z'} {
+				ps = append(ps, patterns.FromText("1"+string(c), 0, "shape:alphabet"), patterns.FromText("-"+string(c), 0, "shape:alphabet"), patterns.FromText("12"+string(c), 0, "shape:alphabet"),
+					patterns.FromText("1"+string(c)+"2", 0, "shape:alphabet"), patterns.FromText(`\d+ `+string(c)+`\b`, 0, "shape:alphabet"), patterns.FromText(`1\.`+string(c), 0, "shape:alphabet"))
 			}
 			ps = dedup(ps)
 			maxN, maxVar := 3, 2
@@ -1022,6 +1038,20 @@ func init() {
 				cg = append(cg, patterns.FromText(t, 0, "shape:entry-codegen"))
 			}
 			us = append(us, stringUnits("C02", "entry", cg, cfgs[1:2], []string{"s", "b"}, mx, nil, nil)...)
+			// raw-string filters that convert a rune distance into a byte offset: fixed-distance literals and
+			// sets behind a window of 2-4 arbitrary runes, on subjects of 4-5 runes over an alphabet that mixes
+			// 1-, 2- and 3-byte runes
+			for _, t := range []string{`\w{3}a`, `[^ ]{3}:`, `(?s)...x`, `\w{2}ab`, `..[ab]c`, `\w{3}[:;]`, `.{2}a.{2}`, `(?i)\w{3}a`, `\w{2}é`} {
+				for _, cfg := range []struct {
+					o  int
+					co string
+				}{{0, ""}, {0, "g"}} {
+					for _, n := range []int{4, 5} {
+						us = append(us, Unit{ID: fmt.Sprintf("C02/%s/o%d%s/r%d", t, cfg.o, cfg.co, n), Harness: "entry", Domain: "full", PathBudget: 60000,
+							Params: map[string]string{"pattern": t, "options": itoa(cfg.o), "copts": cfg.co, "n": itoa(n), "mode": "s", "runealphabet": "xéa:", "key_extra": "r"}})
+					}
+				}
+			}
 			// the regexp-style adapter against the Regexp it wraps (any options, not only RE2: that is C06):
 			// byte pairs of every group, -1 pairs, the find-all sequence and its truncation, on raw bytes
 			// (n <= 2, thorough 3) and on subjects of 4-5 bytes over a three-letter alphabet
